@@ -12,7 +12,9 @@ then judged:
  (5) a declaration switched off for a language is absent from that language's
      output, one that is on is present.
 """
+import copy
 import os
+import re
 import shutil
 import tempfile
 
@@ -100,6 +102,16 @@ def reference_names(workdir, doc, name, argv, has_lua, has_py, tolerant=False):
             continue
         own = {"c": "o_cf", "cf": "o_cf", "python": "o_py", "lua": "o_lua"}[g]
         ref[g] = set(tree[own])
+        # the kinds are learnt from these runs; what is independent of them: with Fortran off no Fortran source
+        # is written (and none is listed), whatever the declarations ask for
+        if g == "c":
+            for f in sorted(tree[own]):
+                if lex.file_kind(f) == "f":
+                    problems.append(("off-language-wrote:fortran-in-c-only-run",
+                                     "wrap_c on and wrap_fortran off for the library, but the Fortran source %s was written" % f))
+            if (lists.get("ffiles.txt") or "").strip():
+                problems.append(("off-language-listed:fortran-in-c-only-run",
+                                 "wrap_fortran is off for the library but --ffiles lists %s" % lists["ffiles.txt"].strip()))
         if g == "python":
             ref["python_main"] = set(tree["o_main"])
         ref.setdefault("yaml", set()).update(tree["o_yaml"])
@@ -174,7 +186,7 @@ def judge_case(ref, case, r, tree, lists, twin_tree):
                 problems.append(("wrong-directory:%s" % k, "%s (kind %s) was written into %s, designated: %s" % (
                     f, k, sub, designated(dirs, k))))
     # completeness when nothing is overridden per declaration
-    if not case["overrides"] and not case.get("switch_on") and not case.get("ns_off"):
+    if not case["overrides"] and not case.get("switch_on") and not case.get("ns_off") and not case.get("block_off"):
         for d, names in allowed.items():
             for f in sorted(names):
                 if f not in tree.get(d, {}):
@@ -263,6 +275,9 @@ def check_presence(case, ref, tree, model_funcs, language="c++", ns_members=None
             if fname in (ns_members or {}).get(nsname, ()):
                 off += [l for l in langs if l not in off and l not in won]
                 ns_level.update(langs)
+        for bkey, langs in (case.get("block_off") or {}).items():
+            if bkey == "func " + fname:
+                off += [l for l in langs if l not in off]
         # effective per-declaration state: library level, switched off or switched on for this declaration
         eon = {l: (flags[l] and l not in off) or (not flags[l] and l in won) for l in ("c", "fortran", "python", "lua")}
         for lang in ("c", "fortran", "python", "lua"):
@@ -289,10 +304,33 @@ def check_presence(case, ref, tree, model_funcs, language="c++", ns_members=None
     return problems
 
 
+def check_block(case, ref, tree, block_members):
+    """What a block switches off is absent from that language's output: the function itself, or every method of
+    the class (C and Fortran are only switched off together here, so no bind(C) interface may remain either)."""
+    problems = []
+    flags, dirs = case["flags"], case["dirs"]
+    cfd = tree.get(eff_dir(dirs, "c_fortran"), {})
+    lang_files = {"c": {f: b for f, b in cfd.items() if kind_of(ref, f) in ("c", "cf") and lex.file_kind(f) == "c"},
+                  "fortran": {f: b for f, b in cfd.items() if lex.file_kind(f) == "f"},
+                  "python": {f: b for f, b in tree.get(eff_dir(dirs, "python"), {}).items() if kind_of(ref, f) == "python"},
+                  "lua": {f: b for f, b in tree.get(eff_dir(dirs, "lua"), {}).items() if kind_of(ref, f) == "lua"}}
+    for bkey, off in (case.get("block_off") or {}).items():
+        for lang in off:
+            if not flags[lang]:
+                continue
+            for m in block_members.get(bkey, ()):
+                if name_in_code(lang_files[lang], m):
+                    problems.append(("block-off-but-present:" + lang,
+                                     "%s is inside a block with wrap_%s: False, but %s occurs in the %s output" % (bkey, lang, m, lang)))
+                    break
+    return problems
+
+
 def _job(job):
     name, text, argv, cases, model_funcs = job[:5]
     corpus_entry = bool(job[5]) if len(job) > 5 else False
     ns_members = job[6] if len(job) > 6 else {}
+    block_members = job[7] if len(job) > 7 else {}
     doc = meta.load(text)
     out = dict(name=name, runs=0, fails=[], nontrivial=[], samples=[])
     work = tempfile.mkdtemp(prefix="vf15_", dir=core.scratch_root())
@@ -330,9 +368,18 @@ def _job(job):
                     if node.get("decl") and _decl_name(node["decl"]) == fname:
                         d2 = meta.with_options(d2, {"wrap_" + l: True for l in on}, path)
                         break
+            for bkey, off in (case.get("block_off") or {}).items():
+                bkind, bname = bkey.split()
+                d2 = copy.deepcopy(d2)
+                for k, node in enumerate(d2["declarations"]):
+                    dtext = node.get("decl", "")
+                    if (bkind == "class" and dtext.split() == ["class", bname]) or (bkind == "func" and "(" in dtext and _decl_name(dtext) == bname):
+                        d2["declarations"][k] = {"block": True, "options": {"wrap_" + l: False for l in off}, "declarations": [node]}
+                        break
             r, tree, lists = run_case(work, "case%d" % i, d2, name, argv, case["flags"], case["dirs"])
             out["runs"] += 1
-            cdesc = dict(lib=name, yaml=text, argv=argv, case=case, corpus_entry=corpus_entry, ns_members=ns_members)
+            cdesc = dict(lib=name, yaml=text, argv=argv, case=case, corpus_entry=corpus_entry, ns_members=ns_members,
+                         model_funcs=model_funcs, block_members=block_members)
             if r.status != "ok":
                 out["fails"].append(("case-failed", cdesc, "Shroud stops: " + r.describe()))
                 continue
@@ -348,6 +395,7 @@ def _job(job):
             problems = judge_case(ref, case, r, tree, lists, twin_tree)
             if model_funcs:
                 problems += check_presence(case, ref, tree, model_funcs, doc.get("language", "c++"), ns_members)
+            problems += check_block(case, ref, tree, block_members)
             nt = (sum(case["flags"].values()) not in (0, 4)) or len(set(v for v in case["dirs"].values() if v)) > 1
             if nt:
                 out["nontrivial"].append((name, repr(sorted(case["flags"].items())), repr(sorted(case["dirs"].items())),
@@ -369,7 +417,7 @@ def _decl_name(decl):
 
 
 @st.composite
-def case_strategy(draw, func_names, ovl_names=None, deep_names=None, ns_names=None):
+def case_strategy(draw, func_names, ovl_names=None, deep_names=None, ns_names=None, block_names=None):
     c = draw(st.booleans())
     flags = dict(c=c, fortran=c and draw(st.booleans()), python=draw(st.booleans()), lua=draw(st.booleans()))
     pool = ["d0", "d1", "d2", "d3", "d4"]
@@ -397,7 +445,13 @@ def case_strategy(draw, func_names, ovl_names=None, deep_names=None, ns_names=No
     ns_off = {}
     if ns_names and draw(st.integers(0, 2)) == 0:
         ns_off[draw(st.sampled_from(sorted(ns_names)))] = draw(st.sampled_from([["fortran"], ["fortran"], ["python"], ["lua"], ["c", "fortran"]]))
-    return dict(flags=flags, dirs=dirs, overrides=overrides, switch_on=switch_on, ns_off=ns_off)
+    # a library-level declaration (a class with everything in it, or a function) inside a 'block: True' entry whose
+    # options switch a language off (input.rst: a block only carries options / format for the declarations in it)
+    block_off = {}
+    cands = [b for b in sorted(block_names or ()) if b.split()[-1] not in overrides and b.split()[-1] not in switch_on]
+    if cands and draw(st.integers(0, 2)) == 0:
+        block_off[draw(st.sampled_from(cands))] = draw(st.sampled_from([["python"], ["lua"], ["c", "fortran"], ["python", "lua"], ["python"]]))
+    return dict(flags=flags, dirs=dirs, overrides=overrides, switch_on=switch_on, ns_off=ns_off, block_off=block_off)
 
 
 def model_function_names(model):
@@ -451,6 +505,38 @@ def namespace_members(model):
     return res
 
 
+def block_candidates(model):
+    """{'class X' | 'func f': [names of the wrapped functions in it]} for library-level classes (with methods, not
+    mentioned by any other declaration) and uniquely named plain functions."""
+    import json
+    res = {}
+    counts = {}
+    for _p, f in smallgen.walk_functions(model):
+        counts[f.get("name")] = counts.get(f.get("name"), 0) + 1
+    for i, n in enumerate(model["decls"]):
+        if n["kind"] == "class" and n.get("methods") and not n.get("members"):
+            others = json.dumps([m for j, m in enumerate(model["decls"]) if j != i])
+            if re.search(r"\b%s\b" % re.escape(n["name"]), others):
+                continue
+            names = [m["name"] for m in n["methods"]]
+            if all(counts.get(x) == 1 for x in names):
+                res["class " + n["name"]] = names
+        elif n["kind"] == "func" and counts.get(n["name"]) == 1 and not n.get("template") and not n.get("generic"):
+            res["func " + n["name"]] = [n["name"]]
+    return res
+
+
+def name_in_code(files, name):
+    """`name` occurs in a code token and is not just the beginning of a longer numbered name (fn1 in fn12)."""
+    pat = re.compile(re.escape(name.lower()) + r"(?![0-9])")
+    for f, data in files.items():
+        toks = lex.code_tokens(f, data)
+        for t in toks or ():
+            if pat.search(t.lower()):
+                return True
+    return False
+
+
 def overload_names(model):
     """C++ names shared by several free functions (overload sets)."""
     seen = {}
@@ -479,8 +565,9 @@ def run(ctx):
     models = smallgen.sample_models(ctx.seed, nlib, with_python=True, with_lua=True)
     for m in models:
         funcs = model_function_names(m)
-        cases = smallgen.sample(case_strategy([f for f, _ in funcs], overload_names(m), deep_function_names(m), namespace_members(m)), ctx.seed + len(jobs), ncase)
-        jobs.append((m["library"], smallgen.to_yaml(m), [], cases, funcs, False, namespace_members(m)))
+        blocks = block_candidates(m)
+        cases = smallgen.sample(case_strategy([f for f, _ in funcs], overload_names(m), deep_function_names(m), namespace_members(m), blocks), ctx.seed + len(jobs), ncase)
+        jobs.append((m["library"], smallgen.to_yaml(m), [], cases, funcs, False, namespace_members(m), blocks))
     import random  # deterministic corpus selection from VERIF_SEED
     rnd = random.Random(ctx.seed)
     ents = [e for e in corpus.entries() if e.name not in ("none",) and not _own_overrides(e.text())]
@@ -526,7 +613,8 @@ def _strip_wrap_options(argv):
 def replay(ctx, rec):
     c = rec["case"]
     cases = [c["case"]] if c.get("case") else []
-    funcs = []
-    out = _job((c["lib"], c["yaml"], c["argv"], cases, funcs, c.get("corpus_entry", False), c.get("ns_members") or {}))
+    funcs = [tuple(x) for x in (c.get("model_funcs") or [])]
+    out = _job((c["lib"], c["yaml"], c["argv"], cases, funcs, c.get("corpus_entry", False), c.get("ns_members") or {},
+                c.get("block_members") or {}))
     for key, case, note in out["fails"]:
         ctx.failure(key, case, observed=note, note=note)
